@@ -1,2 +1,201 @@
+//! `opt` (C19): a script of mutator operations on BasicGarnishData with compactions (`optimize`) and
+//! `clone_data` in between; before and after every compaction everything reachable is read back
+//! structurally through the GarnishData getters (operand stack, input-value stack, frame chain, symbol
+//! names, retained prefix, extra roots through the returned mapping).
+//!
+//! script ops (ids are arbitrary integers chosen by the generator; a description may contain
+//! {"t":"ref","id":k} leaves to share an earlier value by address):
+//!   {"op":"val","id":k,"d":desc}   {"op":"reg","id":k}   {"op":"popreg"}   {"op":"pushval","id":k}   {"op":"popval"}
+//!   {"op":"frame","v":n}   {"op":"popframe"}   {"op":"symname","n":"abc"}   {"op":"retain"}
+//!   {"op":"gc","roots":[ids]}   {"op":"clone","id":k}
+use crate::guarded;
+use crate::store::{BasicN, Host, Store};
+use crate::val::{make, show};
+use garnish_lang::GarnishData;
 use serde_json::{json, Value};
-pub fn opt_case(_c: &Value) -> Value { json!({}) }
+use std::collections::BTreeMap;
+
+fn e<E: std::fmt::Display>(x: E) -> String {
+    format!("{}", x)
+}
+
+fn make_ref(d: &mut BasicN, v: &Value, ids: &BTreeMap<i64, usize>) -> Result<usize, String> {
+    let t = v["t"].as_str().unwrap_or("");
+    match t {
+        "ref" => ids.get(&v["id"].as_i64().unwrap_or(-1)).cloned().ok_or_else(|| format!("script refers to unknown id {}", v["id"])),
+        "pair" | "concat" | "range" | "slice" | "partial" => {
+            let l = make_ref(d, &v["l"], ids)?;
+            let r = make_ref(d, &v["r"], ids)?;
+            match t {
+                "pair" => d.add_pair((l, r)),
+                "concat" => d.add_concatenation(l, r),
+                "range" => d.add_range(l, r),
+                "slice" => d.add_slice(l, r),
+                _ => d.add_partial(l, r),
+            }
+            .map_err(e)
+        }
+        "list" => {
+            let mut addrs = vec![];
+            for it in v["v"].as_array().cloned().unwrap_or_default() {
+                addrs.push(make_ref(d, &it, ids)?);
+            }
+            let mut l = d.start_list(addrs.len()).map_err(e)?;
+            for a in addrs {
+                l = d.add_to_list(l, a).map_err(e)?;
+            }
+            d.end_list(l).map_err(e)
+        }
+        _ => make(d, v),
+    }
+}
+
+fn snapshot(d: &BasicN, ids: &BTreeMap<i64, usize>, retained: &[i64], roots: &[usize], names: &[String]) -> Value {
+    let regs: Vec<Value> = d.reg_addrs().iter().map(|a| show(d, *a, 0)).collect();
+    let vals: Vec<Value> = d.val_addrs().iter().map(|a| show(d, *a, 0)).collect();
+    let frames: Vec<Value> = d.frame_rets().iter().map(|a| json!(*a as i64)).collect();
+    let ret: Vec<Value> = retained.iter().map(|k| json!({"id": k, "v": ids.get(k).map(|a| show(d, *a, 0)).unwrap_or(json!({"t": "bad", "why": "no address"}))})).collect();
+    let rts: Vec<Value> = roots.iter().map(|a| show(d, *a, 0)).collect();
+    let syms: Vec<Value> = names
+        .iter()
+        .map(|n| {
+            let s = garnish_lang::simple::symbol_value(n);
+            match guarded(|| d.get_symbol_string(s)) {
+                Ok(Ok(Some(x))) => json!({"n": n, "r": if &x == n { "same" } else { "other" }}),
+                Ok(Ok(None)) => json!({"n": n, "r": "gone"}),
+                Ok(Err(x)) => json!({"n": n, "r": "err", "msgk": crate::run::msg_key(&e(x))}),
+                Err(m) => json!({"n": n, "r": "panic", "msgk": m}),
+            }
+        })
+        .collect();
+    json!({"regs": regs, "vals": vals, "frames": frames, "retained": ret, "roots": rts, "syms": syms,
+           "cur": d.get_current_value().map(|a| show(d, a, 0)).unwrap_or(json!({"t": "none"}))})
+}
+
+pub fn opt_case(case: &Value) -> Value {
+    let script = case["script"].as_array().cloned().unwrap_or_default();
+    let mut o = case.clone();
+    let r = guarded(|| {
+        let mut d = BasicN::fresh(Host::default());
+        let mut ids: BTreeMap<i64, usize> = BTreeMap::new();
+        let mut retained: Vec<i64> = vec![];
+        let mut names: Vec<String> = vec![];
+        let mut events = vec![];
+        for (k, op) in script.iter().enumerate() {
+            let name = op["op"].as_str().unwrap_or("");
+            let id = op["id"].as_i64().unwrap_or(-1);
+            let fail = |m: String| format!("script step {} ({}): {}", k, name, m);
+            match name {
+                "val" => {
+                    let a = make_ref(&mut d, &op["d"], &ids).map_err(fail)?;
+                    ids.insert(id, a);
+                }
+                "reg" => d.push_register(*ids.get(&id).ok_or_else(|| fail("unknown id".into()))?).map_err(|x| fail(e(x)))?,
+                "popreg" => {
+                    d.pop_register().map_err(|x| fail(e(x)))?;
+                }
+                "pushval" => d.push_value_stack(*ids.get(&id).ok_or_else(|| fail("unknown id".into()))?).map_err(|x| fail(e(x)))?,
+                "popval" => {
+                    d.pop_value_stack();
+                }
+                "frame" => d.push_frame(op["v"].as_u64().unwrap_or(0) as usize).map_err(|x| fail(e(x)))?,
+                "popframe" => {
+                    d.pop_frame().map_err(|x| fail(e(x)))?;
+                }
+                "symname" => {
+                    let n = op["n"].as_str().unwrap_or("x").to_string();
+                    let a = d.parse_add_symbol(&n).map_err(|x| fail(e(x)))?;
+                    ids.insert(id, a);
+                    names.push(n);
+                }
+                "retain" => {
+                    d.retain_all_current_data();
+                    let count = d.data_retention_count();
+                    retained = ids.iter().filter(|(_, a)| **a < count).map(|(k, _)| *k).collect();
+                }
+                "gc" => {
+                    let root_ids: Vec<i64> = op["roots"].as_array().map(|a| a.iter().map(|x| x.as_i64().unwrap_or(-1)).collect()).unwrap_or_default();
+                    let mut roots = vec![];
+                    for rid in &root_ids {
+                        roots.push(*ids.get(rid).ok_or_else(|| fail(format!("unknown root id {}", rid)))?);
+                    }
+                    let before = snapshot(&d, &ids, &retained, &roots, &names);
+                    let size_before = d.get_data_len();
+                    let res = guarded(|| d.optimize(&roots));
+                    let mut ev = json!({"ev": "gc", "at": k, "before": before, "size_before": size_before});
+                    match res {
+                        Err(m) => {
+                            ev["status"] = json!("panic");
+                            ev["msgk"] = json!(m);
+                            events.push(ev);
+                            break;
+                        }
+                        Ok(Err(x)) => {
+                            ev["status"] = json!("err");
+                            ev["msgk"] = json!(crate::run::msg_key(&e(x)));
+                            events.push(ev);
+                            break;
+                        }
+                        Ok(Ok(mapped)) => {
+                            ev["status"] = json!("ok");
+                            ev["mapped_len"] = json!(mapped.len());
+                            // only retained values and the extra roots keep an address the script may use afterwards
+                            let count = d.data_retention_count();
+                            let keep: Vec<(i64, usize)> = ids.iter().filter(|(k, a)| **a < count && retained.contains(k)).map(|(k, a)| (*k, *a)).collect();
+                            ids.clear();
+                            for (k, a) in keep {
+                                ids.insert(k, a);
+                            }
+                            for (rid, a) in root_ids.iter().zip(mapped.iter()) {
+                                ids.insert(*rid, *a);
+                            }
+                            ev["after"] = snapshot(&d, &ids, &retained, &mapped, &names);
+                            ev["size_after"] = json!(d.get_data_len());
+                            events.push(ev);
+                        }
+                    }
+                }
+                "clone" => {
+                    let a = *ids.get(&id).ok_or_else(|| fail("unknown id".into()))?;
+                    let before = show(&d, a, 0);
+                    let res = guarded(|| d.clone_data(a));
+                    let mut ev = json!({"ev": "clone", "at": k, "before": before});
+                    match res {
+                        Err(m) => {
+                            ev["status"] = json!("panic");
+                            ev["msgk"] = json!(m);
+                        }
+                        Ok(Err(x)) => {
+                            ev["status"] = json!("err");
+                            ev["msgk"] = json!(crate::run::msg_key(&e(x)));
+                        }
+                        Ok(Ok(c)) => {
+                            ev["status"] = json!("ok");
+                            ev["distinct"] = json!(c != a);
+                            ev["copy"] = show(&d, c, 0);
+                            ev["original_after"] = show(&d, a, 0);
+                        }
+                    }
+                    events.push(ev);
+                }
+                _ => return Err(fail("unknown op".into())),
+            }
+        }
+        Ok::<Value, String>(json!(events))
+    });
+    match r {
+        Err(m) => {
+            o["status"] = json!("panic");
+            o["msgk"] = json!(m);
+        }
+        Ok(Err(m)) => {
+            o["status"] = json!("scripterr");
+            o["msgk"] = json!(m);
+        }
+        Ok(Ok(ev)) => {
+            o["status"] = json!("ok");
+            o["events"] = ev;
+        }
+    }
+    o
+}
